@@ -15,6 +15,7 @@ import Nsq.Model.ViewOrder
   view …                      → C18: see `Nsq.Model.AggregateWire`
   fan kind=k topic=h channel=h node=sym lk=… na=… nd=…  → C17: `AdminProg.runAction`: result, number of errors in the ErrList, requests phase by phase
   strfn canon|esc <hex>       → C17: `AdminGate.canon` (CanonicalMIMEHeaderKey) / `AdminFanout.esc` (url.QueryEscape), hex
+  proxy on=b m=M q=<hex> who=… g=…  → C17: the graphite reverse proxy `GET /render`
   getv1 https=b mode=n        → C18: `Fetch.getV1` against a stub behaviour: outcome, requests seen on the plain / TLS port
   add topic|channel …         → C18: `TopicAgg.addAll` / `ChanAgg.add` on reports given directly (`AggregateWire.addLine`)
 -/
@@ -200,6 +201,23 @@ def strfn (toks : List String) : String :=
       else "bad-op"
   | _ => "bad-op"
 
+/-- `proxy on=b m=M q=<hex> who=… g=<200|404|500|down>`: the graphite reverse proxy `GET /render`. Registered only with
+`--proxy-graphite` (the regenerated table lists it: `Route.isProxy`), under GET only; it forwards the request it
+received — same method, path and query — to the graphite URL with that URL's basic-auth user, hands back
+graphite's status (502 when graphite cannot be reached), looks at no identity and asks no nsqd / nsqlookupd. -/
+def proxy (toks : List String) : String :=
+  let registered := Nsq.Gen.AdminRoutes.adminRoutes.any (fun r => r.isProxy && r.method == "GET" && r.segs == ["render"])
+  let others := Nsq.Gen.AdminRoutes.adminRoutes.any (fun r => r.segs == ["render"] && !r.isProxy)
+  if !registered || others then "bad-table"
+  else
+    let m := field toks "m"
+    let q := (unhexStr (field toks "q")).getD ""
+    let g := field toks "g"
+    if field toks "on" != "1" then "404 - auth=- nsq=0"
+    else if m != "GET" then "405 - auth=- nsq=0"
+    else if g == "down" then "502 - auth=- nsq=0"
+    else s!"{g} GET:/render{if q == "" then "" else "?" ++ q} auth=guser nsq=0"
+
 def getv1 (toks : List String) : String :=
   match (field toks "mode").toNat? with
   | none => "bad-op"
@@ -252,6 +270,7 @@ def stepLine (line : String) : String :=
   | "fan" :: toks => E7.fan toks
   | "getv1" :: toks => E7.getv1 toks
   | "strfn" :: toks => E7.strfn toks
+  | "proxy" :: toks => E7.proxy toks
   | "lat" :: toks => E7.lat toks
   | "less" :: toks => E7.less toks
   | "add" :: toks => Nsq.Model.AggregateWire.addLine toks
